@@ -71,7 +71,10 @@ def _convert(docs, collect):
         b = TextQueryTestBackend(ProcessingPipeline.from_yaml(PIPELINE), collect_errors=collect)
         out = b.convert(coll, "state")
         r["out"] = [cps(q) for q in out]
-        r["errors"] = [[int(rule.title[1:]), type(e).__name__] for rule, e in b.errors]
+        # error records are attributed by object identity (documents may be identical); rules keep
+        # their document position here because the only correlation rule comes last
+        pos = {id(rule): i + 1 for i, rule in enumerate(coll.rules)}
+        r["errors"] = [[pos.get(id(rule), 0), type(e).__name__] for rule, e in b.errors]
         r["ok"] = True
     except Exception as e:  # noqa: BLE001
         r["exc"] = type(e).__name__
@@ -81,9 +84,9 @@ def _convert(docs, collect):
 
 def drive_case(case):
     kinds = case["kinds"]
-    docs = [rule_doc(k, i + 1) for i, k in enumerate(kinds)]
+    docs = [rule_doc(k, 0 if case.get("dup") else i + 1) for i, k in enumerate(kinds)]
     alone = [_convert([d], False) for d in docs]
-    o = {"id": case["id"], "kinds": kinds, "collect": case["collect"], "corr": case["corr"], "alone": alone}
+    o = {"id": case["id"], "kinds": kinds, "collect": case["collect"], "corr": case["corr"], "dup": bool(case.get("dup")), "alone": alone}
     if case["corr"] != "none":
         c = corr_doc(len(kinds) + 1, case["corr"] == "gen")
         o["corr_alone"] = _convert([docs[0], c], False)
@@ -98,7 +101,7 @@ def _pretty(o):
     def res(r):
         return {"out": [uncps(q) for q in r["out"]], "errors": r["errors"]} if r["ok"] else r["exc"]
 
-    return {"kinds": o["kinds"], "collect": o["collect"], "corr": o["corr"], "collection": res(o["coll"]), "alone": [res(a) for a in o["alone"]]}
+    return {"kinds": o["kinds"], "dup": o.get("dup", False), "collect": o["collect"], "corr": o["corr"], "collection": res(o["coll"]), "alone": [res(a) for a in o["alone"]]}
 
 
 def run(tier: str, seed: int) -> int:
@@ -116,7 +119,8 @@ def run(tier: str, seed: int) -> int:
         distinct_nontrivial=nontrivial,
         rule="TLC (Gen_C08) enumerates every sequence of 1..3 (thorough 4) rules over 7 kinds (one/two conditions, "
         "pipeline-state-setting, failing in the pipeline, on an unresolved placeholder, on an unsupported value, on a "
-        "missing detection) x collect on/off x without / with a non-generating / generating correlation rule over rule 1; every "
+        "missing detection) x collect on/off x without / with a non-generating / generating correlation rule over rule 1, plus "
+        "every sequence with a repeated kind once more with IDENTICAL documents per kind (equal rule objects failing with equal errors); every "
         "collection is converted with a stateful pipeline and output format and compared with per-rule fresh "
         "conversions; non-trivial = at least two rules of which at least one fails",
         samples=samples,
